@@ -25,7 +25,7 @@ Witness == {"sig-flip", "sig-drop", "sig-extra", "sig-swap", "sig-dup-key", "pre
             "in2-sig-flip", "in2-sig-drop", "in2-sig-zero", "in2-sig-extra"}    \* the witnesses of a second input from the same address
 Keys    == {"other-policy", "other-key", "proposed-keys", "renew-other-keys", "renew-stale-keys", "attest-other-key",
             "fnd-unauthorised", "contract-sig-flip", "renewal-sig-flip", "attest-sig-flip", "timelocked-policy",
-            "relabel-parent", "stale-keys", "alg-swap", "fnd-append", "renewal-swap-new"}
+            "relabel-parent", "stale-keys", "alg-swap", "fnd-append", "fnd-append-void", "renewal-swap-new"}
 Tampers == Content \cup Witness \cup Keys
 
 \* ---- shapes ---------------------------------------------------------------------
@@ -54,6 +54,9 @@ Shapes == [
   \* an output created earlier in the same block (no accumulator proof): the claimed parent must still be the real one
   \* two inputs from one address: each input carries its own witnesses and each must be checked
   v2two      |-> Shape(AllPay, AllPay, {"sig", "in2"}, FALSE, {"other-key"}),
+  \* an ordinary payment from the Foundation management address: nobody may attach an address update afterwards - not even
+  \* one to the void address (which waives the subsidy)
+  v2mgmt     |-> Shape(AllPay, AllPay, {"sig"}, FALSE, {"fnd-append", "fnd-append-void", "other-key"}),
   v2ephemeral |-> Shape(AllPay, AllPay, {"sig"}, FALSE, {"other-policy", "other-key", "relabel-parent"}),
   \* two revisions of one contract in one block, the first handing it to a new renter key: the second must be signed
   \* by the keys of the contract as it then stands
